@@ -14,9 +14,15 @@ implementation's own _lengths/_length are handed to the model; Coq checks
   fractions(model) == _lengths bitwise, total == _length,
   T2t / point / t2T: same exception-or-not, same k exactly, t / T within 4 ulp,
   iscontinuous / continuous_subpaths / isclosed exactly,
-for the flags comp (which builtin sum() this interpreter has) and fb (does the
-code fall back to the last segment when the loop runs out) determined from the
-implementation.  Then the property itself is evaluated on the implementation.
+for the flags comp (which builtin sum() this interpreter has), fb (does the
+code fall back to the last nonzero-length segment when the loop runs out) and
+cl (does T2t clamp its quotient to 1), all determined from the implementation.
+Then the property itself is evaluated on the implementation: a code that falls
+off below 1 or returns t > 1 is reported with the keys 'T2t-falloff-below-1' /
+'T2t-t-above-1' whatever the flags say.  For the repaired code (fb = cl = true)
+the applicable binary64 theorems are C05_T2t_total_float and C05_T2t_le_1_float
+(all inputs); the *_refuted Examples are the witnesses against the unrepaired
+variants.
 """
 import sys, math, json, ast, inspect, hashlib, textwrap, warnings
 from fractions import Fraction
@@ -31,10 +37,11 @@ FINGERPRINTS = {
     'Path._calc_lengths': None, 'Path.point': None, 'Path.T2t': None, 'Path.t2T': None,
     'Path.iscontinuous': None, 'Path.continuous_subpaths': None, 'Path.isclosed': None,
 }
-PINNED = {
-    'Path._calc_lengths': 'f7a685d814', 'Path.point': '1cbaa016c5', 'Path.T2t': 'd0d39c6731',
-    'Path.t2T': '5c375cf2aa', 'Path.iscontinuous': '12699dce58',
-    'Path.continuous_subpaths': 'e684beb0f3', 'Path.isclosed': '61a5bbb3d5',
+PINNED = {     # hashes of the unrepaired tree and of the tree with both C05 repairs applied
+    'Path._calc_lengths': ('f7a685d814',), 'Path.point': ('1cbaa016c5', '6c7d8f1210'),
+    'Path.T2t': ('d0d39c6731', '306cc0dfa7'), 'Path.t2T': ('5c375cf2aa',),
+    'Path.iscontinuous': ('12699dce58',), 'Path.continuous_subpaths': ('e684beb0f3',),
+    'Path.isclosed': ('61a5bbb3d5',),
 }
 
 
@@ -332,7 +339,8 @@ From Coq Require Import PrimFloat.
 From SVP Require Import Base.FloatK Model.PathIdx.
 Definition N := NumF.
 Definition comp : bool := %(comp)s.       (* which builtin sum() the interpreter has *)
-Definition fb : bool := %(fb)s.           (* does the code fall back to the last segment *)
+Definition fb : bool := %(fb)s.           (* does the code fall back to the last nonzero-length segment *)
+Definition cl : bool := %(cl)s.           (* does T2t clamp its quotient to 1 *)
 Definition is_nan (x : float) : bool := negb (PrimFloat.eqb x x).
 Definition fsame (a b : float) : bool := PrimFloat.eqb a b || (is_nan a && is_nan b).
 Definition fnear (a b : float) : bool := fsame a b || fclose_ulps 4%%float a b.
@@ -356,7 +364,7 @@ Definition cmp_v (r : res float) (c : nat) (v : float) : nat :=
 Definition tcase : Type := (float * obs * obs * (nat * float))%%type.
 Definition ok_t (fs : list (bool * float)) (c : tcase) : nat :=
   let '(T, o1, o2, (c3, v3)) := c in
-  match cmp_kt (T2t_fr N fb fs T) o1 with
+  match cmp_kt (T2t_fr N cl fb fs T) o1 with
   | 0 => match cmp_kt (point_fr N fb fs T) o2 with
          | 0 => let '(c1, k, t) := o1 in
                 if Nat.eqb c1 0
@@ -449,12 +457,15 @@ def impl_check(o, specs):
         k, t = tc['k1'], tc['t1']
         if not (0 <= k < n):
             out.append(('T2t-index-out-of-range', 'T2t returned k=%d' % k, T)); continue
-        if 0.0 < T < 1.0 and not (fr[k] > 0) and not (k == n - 1 and t == 1):   # (n-1, 1) = the repaired fall-back
+        if 0.0 < T < 1.0 and not (fr[k] > 0):
             out.append(('zero-length-segment-selected', 'T2t selected segment %d of length 0' % k, T))
         if not (0.0 <= t <= 1.0):
             out.append(('T2t-t-above-1' if t > 1.0 else 'T2t-t-outside-unit-interval',
                         'T2t returned t=%r (k=%d, fraction %r); e.g. Arc.length asserts 0 <= t <= 1' % (
                             float(t), k, float(fr[k])), T))
+        if not (0.0 <= tc['t2'] <= 1.0):
+            out.append(('point-segment-parameter-outside-unit-interval',
+                        'point evaluated segment %d at %r' % (tc['k2'], float(tc['t2'])), T))
         if tc['k2'] != k:
             out.append(('point-T2t-different-segment', 'point used segment %d, T2t says %d' % (tc['k2'], k), T))
         else:
@@ -556,13 +567,18 @@ def shrink(specs, T, key):
 
 def detect_flags():
     """comp: builtin sum() compensates (CPython >= 3.12); fb: the code returns
-    instead of raising on the binary64 fall-through witness of Props/C05.v"""
+    instead of raising on the binary64 fall-through witness of Props/C05.v
+    (C05_falloff_refuted); cl: T2t returns t <= 1 on the witness of
+    C05_t_above_1_refuted"""
     from svgpathtools import Path, Line
     comp = (sum([0.1] * 10) == 1.0)
     p = Path(Line(0j, 9 + 0j), Line(9 + 0j, 21 + 0j), Line(21 + 0j, 26 + 0j), Line(26 + 0j, 27 + 0j))
     c1, _ = call(p.T2t, 1.0 - EPS)
     c2, _ = call(p.point, 1.0 - EPS)
-    return comp, (c1 == 0 and c2 == 0), (c1, c2)
+    q = Path(Line(0j, 1 + 0j), Line(1 + 0j, 3 + 0j), Line(3 + 0j, 5 + 0j))
+    c3, r3 = call(q.T2t, 0.6000000000000001)
+    cl = (c3 == 0 and r3[1] <= 1)
+    return comp, (c1 == 0 and c2 == 0), cl, (c1, c2, (float(r3[1]) if c3 == 0 else EXC_NAMES.get(c3)))
 
 
 def run(rep, tier, seed, replay=None):
@@ -573,19 +589,35 @@ def run(rep, tier, seed, replay=None):
     with common.Scratch() as tmp:
         info = common.std_static(rep, 'C05', (), (), tmp)
         fps = fingerprints()
-        changed = sorted(k for k, v in fps.items() if PINNED.get(k) and PINNED[k] != v)
+        changed = sorted(k for k, v in fps.items() if PINNED.get(k) and v not in PINNED[k])
         rep.cov['fingerprints'] = {'current': fps, 'changed': changed}
-        comp, fb, wcodes = detect_flags()
-        rep.cov['model_flags'] = {'comp (builtin sum compensates)': comp, 'fallback (code repaired)': fb,
-                                  'witness T2t/point': [EXC_NAMES.get(c) for c in wcodes]}
+        comp, fb, cl, wit = detect_flags()
+        rep.cov['model_flags'] = {'comp (builtin sum compensates)': comp, 'fb (fall-back repair present)': fb,
+                                  'cl (clamp repair present)': cl,
+                                  'witnesses': {'T2t(1-2^-53) on lengths 9,12,5,1': EXC_NAMES.get(wit[0]),
+                                                'point(1-2^-53) on lengths 9,12,5,1': EXC_NAMES.get(wit[1]),
+                                                't of T2t(0.6000000000000001) on lengths 1,2,2': wit[2]}}
         rep.notes.append('PrimFloat.* and float in the Print Assumptions output are kernel primitives of Coq '
-                         '(hardware binary64), not Axiom declarations; the R theorems use the standard axioms of Coq reals')
+                         '(hardware binary64), not Axiom declarations; FloatAxioms.{add,leb,eqb}_spec are the standard '
+                         'library specification of these primitives (used by C05_T2t_total_float only); the R theorems '
+                         'use the standard axioms of Coq reals')
+        applicable = []
         if fb:
-            rep.notes.append('the code falls back to the last segment on the fall-through witness: model flag fb = true; '
-                             'C05_T2t_fixed_total / C05_T2t_total_float is the applicable totality theorem')
+            applicable += ['C05_T2t_total_float (T2t total on [0,1] for all binary64 inputs: no BugException, no ZeroDivisionError)',
+                           'C05_T2t_fixed_value / C05_fallback_nonzero_length (the fall-back is the end of the last nonzero-length segment)']
+            rep.notes.append('the code falls back on the binary64 fall-through witness: model flag fb = true; '
+                             'C05_falloff_refuted is a historical witness against the unrepaired variant')
         else:
+            applicable += ['C05_falloff_refuted / C05_T2t_total_float_refuted (the code is the unrepaired variant fb = false)']
             rep.notes.append('the code raises on the binary64 fall-through witness of C05_falloff_refuted '
-                             '(T2t -> %s, point -> %s): model flag fb = false' % tuple(EXC_NAMES.get(c) for c in wcodes))
+                             '(T2t -> %s, point -> %s): model flag fb = false' % (EXC_NAMES.get(wit[0]), EXC_NAMES.get(wit[1])))
+        if cl:
+            applicable += ['C05_T2t_le_1_float (the returned t is never above 1, all binary64 inputs)']
+            rep.notes.append('T2t clamps its quotient: model flag cl = true; C05_t_above_1_refuted is a historical witness')
+        else:
+            applicable += ['C05_t_above_1_refuted / C05_T2t_le_1_float_refuted (the code is the unrepaired variant cl = false)']
+            rep.notes.append('T2t returns t = %r > 1 on the witness of C05_t_above_1_refuted: model flag cl = false' % (wit[2],))
+        rep.cov['applicable_float_theorems'] = applicable
         npaths = 260 if tier == 'quick' else 3000
         if changed:
             npaths *= 4
@@ -665,7 +697,7 @@ def run(rep, tier, seed, replay=None):
                 rep.violation('C05 violated by the implementation: %s (%s)' % (key, what),
                               {'kind': 'property', 'key': key, 'path': spec_json(sp), 'python': spec_repr(sp), 'what': what},
                               key=key)
-        okdef = OKDEF % {'comp': coq_bool(comp), 'fb': coq_bool(fb)}
+        okdef = OKDEF % {'comp': coq_bool(comp), 'fb': coq_bool(fb), 'cl': coq_bool(cl)}
         fails, errors = common.run_cases(tmp, '', 'casety', okdef, cases, shard=max(8, (len(cases) + 15) // 16),
                                          prefix='cases_c05', timeout=900)
         for e in errors:
@@ -687,7 +719,7 @@ def run(rep, tier, seed, replay=None):
             rep.violation('C05: implementation and model disagree: %s' % what,
                           {'kind': 'correspondence', 'observation': what, 'path': spec_json(sp), 'python': spec_repr(sp),
                            'Ts': Ts, 'detail': det, 'lengths': [float(x) for x in o['raw']],
-                           '_lengths': [float(x) for x in o['fr']], 'model_flags': {'comp': comp, 'fb': fb},
+                           '_lengths': [float(x) for x in o['fr']], 'model_flags': {'comp': comp, 'fb': fb, 'cl': cl},
                            'how': './check C05 --replay <this file>'}, key='corr-%d' % (code if code < 100 else code % 100))
         rep.cov['evaluations'] = evals
         rep.cov['traces_validated_against_impl'] = len(cases)
